@@ -538,13 +538,13 @@ impl<'w> Sim<'w> {
             return Ok(());
         }
         let any_comfy = fresh_adm.iter().chain(known.iter()).any(|i| comfy(i));
-        let sig = if !any_comfy {
-            // every known valid path is inside min_expiry_threshold: never selected as active
-            "no-path-though-valid-known:all-within-expiry-threshold"
-        } else if !no_truncation {
+        let sig = if !no_truncation {
             // more routes known than the cache may hold: ranking (which ignores expiry) kept
-            // expired / nearly expired paths and dropped the comfortably valid one
+            // expired paths and dropped the valid one just fetched
             "no-path-though-valid-fetched:cache-truncation-kept-(near-)expired-paths"
+        } else if !any_comfy {
+            // every known valid path is inside min_expiry_threshold and none was made active
+            "no-path-though-valid-known:all-within-expiry-threshold"
         } else {
             "no-path-though-valid-known"
         };
